@@ -393,7 +393,7 @@ def run(ctx):
     for D_, amp in ((8, 0.0), (8, 0.01), (10, 0.0), (12, 0.2), (6, 0.005)):
         n = rng.randint(1, 2)
         x = rand_coeffs(rng, (D_, 1, n, n), -0.5, 0.5)
-        a = rand_coeffs(rng, (n, n), -1, 1) + np.eye(n)
+        a = rand_coeffs(rng, (n, n), -1, 1) + 1.5 * np.eye(n)              # (never the zero matrix)
         x[0, 0] = a / np.linalg.norm(a, 1) * amp
         c = {'op': 'expm', 'D': D_, 'P': 1, 'q': 'higham', 'x': x}
         ctx.evaluations += 1
